@@ -698,12 +698,41 @@ class SymMixin:
     # ------------------------------------------------------------------ loops with symbolic trip count
     def loop_item(self, it: Sym, run, node):
         """(count term, loop variable value) for iterating a symbolic iterable."""
+        if isinstance(it, ListV):
+            # a list appended to under a symbolic trip count: iterate it as the weak tuple it denotes
+            it = Sym(("tuple", kterm(it)), "tuple", weak_list=it)
         k = self.kind_of(it, run)
         if k == "range":
             return it.info["count"], Sym(("loopvar", next(_ids)), "int", lo=0)
         if k == "tuple":
             et = it.info.get("elem")
             cnt = self.sym_len(it, run, node)
+            vals = it.info.get("elem_values")
+            wl = it.info.get("weak_list")
+            if et is None and isinstance(wl, Sym):
+                vals = wl.info.get("elem_values")
+            elif et is None and isinstance(wl, ListV):
+                vals = list(wl.items) + list(wl.may or [])
+            if et is None and vals and all(v is not None for v in vals):
+                # the sequence was built by a symbolic comprehension / loop: an item is one of the values its body produced
+                if len(vals) > 1 and all(isinstance(v, InstV) and v.cls is vals[0].cls and set(v.attrs) == set(vals[0].attrs) for v in vals):
+                    # alternatives of one class: attributes on which they agree stay exact, the others become a choice
+                    attrs = {}
+                    for a in vals[0].attrs:
+                        xs = [v.attrs[a] for v in vals]
+                        ts = {kterm(x) for x in xs}
+                        if len(ts) == 1:
+                            attrs[a] = xs[0]
+                        elif all(isinstance(x, Sym) and x.kind == xs[0].kind for x in xs):
+                            common = {k: v for k, v in xs[0].info.items() if k != "bv" and all(k in x.info and x.info[k] == v for x in xs[1:])}
+                            attrs[a] = Sym(("alt", tuple(sorted(ts, key=repr))), xs[0].kind, **common)
+                        else:
+                            attrs[a] = Sym(("alt", tuple(sorted(ts, key=repr))), "any", alts=xs)
+                    return cnt, InstV(vals[0].cls, attrs)
+                i = 0
+                while i < len(vals) - 1 and not run.decide(("elem-alt", it.term, i), self.site(node)):
+                    i += 1
+                return cnt, vals[i]
             var = self.sym_of_type(("elem", it.term), et) if et is not None else Sym(("elem", it.term))
             return cnt, var
         if k == "bytes":
